@@ -109,6 +109,12 @@ func (t *tr) expr(e ast.Expr) string {
 		if x.Name == "nil" {
 			return ".nilV"
 		}
+		if x.Name == "true" {
+			return ".tt"
+		}
+		if x.Name == "false" {
+			return ".ff"
+		}
 		if x.Name == t.recv && t.recv != "" {
 			return "(.opaque \"receiver\")"
 		}
@@ -290,6 +296,8 @@ func (t *tr) call(x *ast.CallExpr) string {
 			break
 		}
 		switch {
+		case id.Name == "unicode" && (f.Sel.Name == "IsLetter" || f.Sel.Name == "IsNumber") && len(x.Args) == 1:
+			return "(.call " + q("unicode."+f.Sel.Name) + " " + t.expr(x.Args[0]) + " .absent)"
 		case id.Name == "vxfw" && f.Sel.Name == "ConsumeAndRedraw" && len(x.Args) == 0:
 			return ".redraw"
 		case id.Name == "vxfw" && f.Sel.Name == "NewSurface":
@@ -690,6 +698,7 @@ func genLang(c *ex.Ctx) {
 	for _, fn := range []string{"SetContent", "Update", "resegment"} {
 		emit(ti, "widgets/textinput/textinput.go", "Model", "m", fn, "ti"+strings.ToUpper(fn[:1])+fn[1:])
 	}
+	emit(ti, "widgets/textinput/textinput.go", "", "m", "isAlphaNumeric", "tiIsAlphaNumeric")
 	// the variable Draw keeps the cursor column in: the left side of its `….Cursor.Col = …` assignments
 	key := "unknown"
 	if m := regexp.MustCompile(`S\.assign "([^"]*\.Cursor\.Col)"`).FindStringSubmatch(drawText); m != nil {
